@@ -234,7 +234,16 @@ def strat_directed(tier):
     return st.builds(fix, base, st.lists(st.lists(st.integers(0, 7), min_size=1, max_size=10), min_size=4, max_size=30))
 
 
+def strat_terminal(tier):
+    from hypothesis import strategies as st
+
+    TIER["max_orders"] = 120 if tier == "quick" else MAX_ORDERS
+    base = gen.directed_scenario(gen.terminal_ir(), max_choices=0, p_fail=0.0)
+    return st.builds(lambda s, orders: dict(s, outcomes={}, orders=orders), base, st.lists(st.lists(st.integers(0, 7), min_size=1, max_size=10), min_size=4, max_size=30))
+
+
 PARTS = [
     Part("orders", run, strategy, {"quick": 256, "thorough": 2560}, rule=RULE),
     Part("fork-join-orders", run, strat_directed, {"quick": 160, "thorough": 1600}, rule="directed fork-join definitions (branches that arrive conditionally or never) under all completion orders"),
+    Part("terminal-orders", run, strat_terminal, {"quick": 200, "thorough": 2000}, rule="directed: parallel chains with and without publishes ending as leaves, run-time dead ends, noop or in a join; all completion orders"),
 ]
